@@ -1,0 +1,81 @@
+//go:build verif
+
+// Contracts for the deductive verifier in /verif (comment-only; compiled only with -tags verif).
+package deputynode
+
+//@ pred wfNodes(ds types.DeputyNodes) = forall(i, 0, len(ds), ds[i] != nil && int(ds[i].Rank) == i)
+//@ pred distinctMiners(ds types.DeputyNodes) = forall(i, 0, len(ds), forall(j, 0, len(ds), i != j ==> ds[i].MinerAddress != ds[j].MinerAddress))
+//@ pred wfManager(m *Manager) = m != nil && m.DeputyCount >= 0 && forall(i, 0, len(m.termList), m.termList[i] != nil && len(m.termList[i].Nodes) >= 1 && wfNodes(m.termList[i].Nodes))
+//@ pred special(h uint32) = h == 1 || IsRewardBlock(h)
+//@ pred cfgOK() = params.TermDuration > 0 && params.TermDuration <= 1<<30 && params.InterimDuration <= 1<<30
+
+//@ func IsRewardBlock   pure
+//@   props C13
+//@   requires cfgOK()
+//@   ensures result == (height >= params.TermDuration + params.InterimDuration + 1 && height % params.TermDuration == params.InterimDuration + 1)
+//@   nopanic
+
+//@ func GetSignerTermIndexByHeight   pure
+//@   props C13
+//@   requires cfgOK()
+//@   ensures height < params.TermDuration + params.InterimDuration + 1 ==> result == 0
+//@   ensures height >= params.TermDuration + params.InterimDuration + 1 ==> result == (height - params.InterimDuration - 1) / params.TermDuration
+//@   nopanic
+
+//@ func NewTermRecord
+//@   props C13 C10
+//@   requires cfgOK()
+//@   requires forall(i, 0, len(nodes), nodes[i] != nil && nodes[i].Votes != nil) && len(nodes) <= 1<<20
+//@   ensures result != nil && sameSlice(result.Nodes, nodes) && len(nodes) >= 1 && wfNodes(nodes)
+//@   ensures result.TermIndex == snapshotHeight / params.TermDuration && snapshotHeight % params.TermDuration == 0
+//@   ensures forall(i, 1, len(nodes), val(nodes[i].Votes) <= val(nodes[i-1].Votes))
+//@   invariant @loop 0: 0 <= $k && $k <= len(nodes) && forall(i, 0, $k, int(nodes[i].Rank) == i) && forall(i, 1, $k, val(nodes[i].Votes) <= val(nodes[i-1].Votes))
+
+//@ func (*Manager).GetTermByHeight   pure
+//@   props C13
+//@   requires wfManager(m) && cfgOK()
+//@   ensures result1 == nil ==> result0 != nil && len(result0.Nodes) >= 1 && wfNodes(result0.Nodes)
+//@   ensures result1 != nil ==> result0 == nil
+//@   nopanic
+
+//@ func (*Manager).GetDeputiesByHeight   pure
+//@   props C13
+//@   requires wfManager(m) && cfgOK()
+//@   ensures wfNodes(result) && len(result) <= m.DeputyCount
+//@   nopanic
+
+//@ func (*Manager).GetDeputiesCount   pure
+//@   props C13
+//@   requires wfManager(m) && cfgOK()
+//@   ensures result == len(m.GetDeputiesByHeight(height, true))
+//@   nopanic
+
+//@ func findDeputyByAddress   pure
+//@   props C13
+//@   requires forall(i, 0, len(deputies), deputies[i] != nil)
+//@   ensures result != nil ==> exists(i, 0, len(deputies), deputies[i] == result) && result.MinerAddress == addr
+//@   ensures result == nil ==> forall(i, 0, len(deputies), deputies[i].MinerAddress != addr)
+//@   invariant @loop 0: 0 <= $k && $k <= len(deputies) && forall(i, 0, $k, deputies[i].MinerAddress != addr)
+//@   nopanic
+
+//@ func (*Manager).GetDeputyByDistance   pure
+//@   props C13
+//@   requires wfManager(m) && cfgOK()
+//@   let ds = m.GetDeputiesByHeight(targetHeight, true); n = len(ds)
+//@   requires n <= 1<<20 && distance <= 1<<20
+//@   panics_if targetHeight == 0 || distance < 1
+//@   ensures result1 == nil && special(targetHeight) ==> n > 0 && result0 == ds[(int(distance) - 1) % n]
+//@   ensures result1 == nil && !special(targetHeight) ==> n > 0 && exists(i, 0, n, ds[i].MinerAddress == parentBlockMiner && result0 == ds[(i + int(distance)) % n])
+//@   ensures result1 != nil ==> result0 == nil && result1 == ErrNotDeputy && (n == 0 || (!special(targetHeight) && forall(i, 0, n, ds[i].MinerAddress != parentBlockMiner)))
+//@   invariant @loop 0: 0 <= $k && $k <= n && forall(i, 0, $k, ds[i].MinerAddress != parentBlockMiner)
+
+//@ func (*Manager).GetMinerDistance   pure
+//@   props C13
+//@   requires wfManager(m) && cfgOK()
+//@   let ds = m.GetDeputiesByHeight(targetHeight, true); n = len(ds)
+//@   requires distinctMiners(ds) && n <= 1<<20
+//@   panics_if targetHeight == 0
+//@   ensures result1 == nil ==> 1 <= int(result0) && int(result0) <= n
+//@   ensures result1 == nil && special(targetHeight) ==> ds[(int(result0) - 1) % n].MinerAddress == targetMiner
+//@   ensures result1 == nil && !special(targetHeight) ==> exists(i, 0, n, ds[i].MinerAddress == parentBlockMiner && ds[(i + int(result0)) % n].MinerAddress == targetMiner)
+//@   ensures result1 != nil ==> result1 == ErrNotDeputy && result0 == 0
